@@ -23,7 +23,7 @@ from ..common import seed
 
 KEYS = fixtures.KEYS
 DOUBLES = [0.0, 1.0, -4.0, 1500.0, 6.4e-5, 58000.5, -0.1, 1.0 / 3.0, -3015.5, 123456.789]
-STRS = ["", "J0534+2200", "a b", "x" * 40, "verif.fil"]
+STRS = ["", "J0534+2200", "a b", "x" * 40, "verif.fil", "J1 ", " lead", "  pad  ", "tab\t"]
 
 
 def pay_of(key, val):
@@ -153,11 +153,12 @@ def fields_job(spec):
                               -359999, 359999, -5999, -6000, 21599999, -21599999])
         ra_cs = rng.choice([rng.randrange(0, 8640000), 0, 8639999, 360000, 359999])    # centi-seconds of time
         upd = {"coord": SkyCoord(ra=(ra_cs / 100.0 / 3600.0) * u.hourangle, dec=(dec_cas / 100.0 / 3600.0) * u.deg),
-               "azimuth": Angle(rng.choice([0.0, 12.5, 359.999999, rng.uniform(0, 360)]) * u.deg),
-               "zenith": Angle(rng.choice([0.0, 45.25, 89.999, rng.uniform(0, 90)]) * u.deg),
+               # angles are given in whatever unit the caller likes: degrees, radians, hour angle, arcmin
+               "azimuth": Angle(rng.choice([0.0, 12.5, 359.999999, rng.uniform(0, 360)]) * u.deg).to(rng.choice([u.deg, u.rad, u.hourangle, u.arcmin])),
+               "zenith": Angle(rng.choice([0.0, 45.25, 89.999, rng.uniform(0, 90)]) * u.deg).to(rng.choice([u.deg, u.rad, u.arcmin])),
                "telescope": rng.choice(tels), "backend": rng.choice(backs), "frame": rng.choice(["topocentric", "barycentric", "pulsarcentric"]),
                "ibeam": rng.choice([0, 1, 13]), "nbeams": rng.choice([0, 1, 13]), "dm": rng.choice(DOUBLES[:8]),
-               "source": rng.choice(STRS[1:4]), "tsamp": rng.choice([6.4e-5, 1.0 / 3.0, 0.001]),
+               "source": rng.choice(STRS[1:4] + STRS[5:8]), "tsamp": rng.choice([6.4e-5, 1.0 / 3.0, 0.001]),
                "tstart": rng.choice([50000.0, 58000.123456789]), "fch1": rng.choice([1500.0, 433.1]),
                "foff": rng.choice([-0.1, 1.0 / 3.0, -4.0]), "nchans": rng.choice([1, 4, 1024]), "nbits": rng.choice([1, 2, 4, 8, 16, 32]),
                "nifs": rng.choice([1, 2])}
